@@ -95,6 +95,7 @@ let classify_cg line (prm : params) (p0 : probe) (last : probe) (it : Float64.t)
    (hand-coded here: backtrack n, lemarechal n-1, fletcher 2n-1, morethuente n, cgdescent 7n+1) ---- *)
 let alg_names = [| "backtrack"; "lemarechal"; "fletcher"; "morethuente"; "cgdescent" |]
 let evb_best = Array.make 5 (0.0, 0, 0, 0)      (* ratio, probes, bound, max_iterations *)
+let evb_best100 = Array.make 5 (0.0, 0, 0, 0)   (* the same over the runs with max_iterations >= 100 *)
 let eval_bound algi n =
   2 * n + (match algi with 0 -> n | 1 -> n - 1 | 2 -> 2 * n - 1 | 3 -> n | _ -> 7 * n + 1)
 let check_eval_bound line algi maxit probes =
@@ -103,7 +104,9 @@ let check_eval_bound line algi maxit probes =
     if probes > b then propfail line (Printf.sprintf "evaluations-bound: %d evaluations > %d = bound of C07_evaluations_bounded (%s, max_iterations=%d)" probes b alg_names.(algi) maxit);
     let r = float_of_int probes /. float_of_int b in
     let (r0, _, _, _) = evb_best.(algi) in
-    if r > r0 then evb_best.(algi) <- (r, probes, b, maxit)
+    if r > r0 then evb_best.(algi) <- (r, probes, b, maxit);
+    let (r1, _, _, _) = evb_best100.(algi) in
+    if maxit >= 100 && r > r1 then evb_best100.(algi) <- (r, probes, b, maxit)
   end
 
 let do_const line rest =
@@ -229,4 +232,5 @@ let () =
       let kv = List.sort compare (Hashtbl.fold (fun k n acc -> (k, n) :: acc) t []) in
       Printf.printf "HIST %s %s\n" h (String.concat " " (List.map (fun (k, n) -> Printf.sprintf "%s=%d" k n) kv))) hist;
   Array.iteri (fun i (r, p, b, mi) -> Printf.printf "EVALB %s max_ratio=%.4f evaluations=%d bound=%d max_iterations=%d\n" alg_names.(i) r p b mi) evb_best;
+  Array.iteri (fun i (r, p, b, mi) -> Printf.printf "EVALB %s[max_iterations>=100] max_ratio=%.4f evaluations=%d bound=%d max_iterations=%d\n" alg_names.(i) r p b mi) evb_best100;
   Printf.printf "MODEL-DONE checked=%d mismatches=%d\n" !total !mism
